@@ -414,7 +414,9 @@ where
         let TransportedHandle { id, dropped_tx, .. } = TransportedHandle::<T, Codec>::deserialize(deserializer)?;
 
         let handle_storage = PortDeserializer::storage()?;
-        let state = match handle_storage.remove(id) {
+        // The entry stays in the storage until all remote handles have been dropped,
+        // so that clones of the handle and handles that are sent out again can be received as well.
+        let state = match handle_storage.get(id) {
             Some(entry) => State::LocalReceived { entry, id, dropped_tx },
             None => State::Remote { id, dropped_tx },
         };
